@@ -199,7 +199,8 @@ def progress (s : St) : Nat × Nat :=
 -- ---------------------------------------------------------------------------------------------------------------------
 
 def mCall (s : St) (inp : Bytes) (cap : Nat) (act : Action) : Option St :=
-  if s.mpc = .out ∧ s.seq ≠ .ended then
+  -- (lzma_code: once LZMA_FINISH has been used, the action must stay LZMA_FINISH)
+  if s.mpc = .out ∧ s.seq ≠ .ended ∧ (s.seq = .index → act = .finish) then
     let s1 := { s with inp := inp, cap := cap, act := act, hasBlocked := false, lastRet := none }
     some { s1 with mpc := (match s.seq with | .header => MPc.hdrOut | .block => MPc.loopTop | _ => MPc.tailOut) }
   else none
@@ -257,17 +258,20 @@ def mEncIn (s : St) : Option St :=
         let k := min s.inp.length (s.cfg.bs - e.data.length)
         let data' := e.data ++ s.inp.take k
         let flush : Bool := (s.inp.drop k).isEmpty && s.act ≠ .run
-        let s1 := { s with inp := s.inp.drop k, consumed := s.consumed ++ s.inp.take k,
-                           flushPts := if flush then s.flushPts ++ [s.consumed.length + k] else s.flushPts }
         let finish : Bool := data'.length = s.cfg.bs || flush
+        -- block_error: the worker has gone idle (it has reported an error). The bytes were already copied and *in_pos advanced;
+        -- the ghost `consumed` only counts bytes accepted into Blocks.
+        let s0 := { s with inp := s.inp.drop k }
         match e.wk with
-        | none => some (ret s1 (s.err.getD PROG_ERROR))       -- block_error: the worker has gone idle
+        | none => some (ret s0 (s.err.getD PROG_ERROR))
         | some w =>
-          if w.state = .idle then some (ret s1 (s.err.getD PROG_ERROR))
+          if w.state = .idle then some (ret s0 (s.err.getD PROG_ERROR))
           else
             let w' := { w with state := if finish then .finish else w.state, woken := true }
             let e' := { e with data := data', closed := finish, wk := some w' }
-            some { s1 with outq := s.outq.dropLast ++ [e'], thr := !finish }
+            some { s0 with consumed := s.consumed ++ s.inp.take k,
+                           flushPts := if flush then s.flushPts ++ [s.consumed.length + k] else s.flushPts,
+                           outq := s.outq.dropLast ++ [e'], thr := !finish }
   else none
 
 def mGetThreadErr (s : St) (r : Ret) : Option St :=
